@@ -9,8 +9,7 @@ use poulpy_hal::layouts::{ZnxView, ZnxViewMut};
 /// After `set(f, k)` and `rotate(-t)` the constant coefficient of the (extended) test polynomial is the table entry
 /// f[ floor((t + drift) / step) ] * scale, negated when the index wraps past the domain size (negacyclic sign), for EVERY
 /// rotation index t in [0, 2*N*ext).  Shapes: N = 4, extension factor EXT, table length FL; entries symbolic.
-fn lut_clear_path<const EXT: usize, const FL: usize>() {
-    const N: usize = 4;
+fn lut_clear_path<const N: usize, const EXT: usize, const FL: usize>() {
     const B: usize = 4; // base2k
     const K: usize = 3; // message precision: one limb, scale = 2^(B-K) = 2
     let module: Module<FFT64Ref> = Module::new_marker(N as u64);
@@ -42,17 +41,23 @@ fn lut_clear_path<const EXT: usize, const FL: usize>() {
 #[kani::unwind(20)]
 #[kani::stub(alloc::fmt::format, fmt_stub)]
 fn c14_lut_clear__n4_ext1_f4() {
-    lut_clear_path::<1, 4>();
+    lut_clear_path::<4, 1, 4>();
 }
 #[kani::proof]
 #[kani::unwind(20)]
 #[kani::stub(alloc::fmt::format, fmt_stub)]
 fn c14_lut_clear__n4_ext1_f2() {
-    lut_clear_path::<1, 2>();
+    lut_clear_path::<4, 1, 2>();
 }
 #[kani::proof]
 #[kani::unwind(20)]
 #[kani::stub(alloc::fmt::format, fmt_stub)]
-fn c14_lut_clear__n4_ext2_f4() {
-    lut_clear_path::<2, 4>();
+fn c14_lut_clear__n2_ext2_f2() {
+    lut_clear_path::<2, 2, 2>();
+}
+#[kani::proof]
+#[kani::unwind(20)]
+#[kani::stub(alloc::fmt::format, fmt_stub)]
+fn c14_lut_clear__n2_ext4_f4() {
+    lut_clear_path::<2, 4, 4>();
 }
